@@ -95,6 +95,11 @@ fn alphabet(st: &State, full: bool) -> Vec<Op> {
             v.push(Op::SecBump(sec.clone(), i.to_string(), None));
             // the value zero: an override to 0 and a bump by 0 (a pure reset of the lower levels) are ordinary operations
             if !matches!(c, RComp::Str(_)) && (full || i % 2 == 1) { v.push(Op::SecOverride(sec.clone(), i.to_string(), "0".into())); }
+            // text with the punctuation that option parsers like to split on: the value of a spec is everything after the first '='
+            if matches!(c, RComp::Str(_)) && !comps[..i].iter().any(|p| matches!(p, RComp::Str(_))) {
+                v.push(Op::SecOverride(sec.clone(), i.to_string(), "a,b".into()));
+                if full { v.push(Op::SecOverride(sec.clone(), i.to_string(), "p q;r:s,t".into())); }
+            }
         }
         if len > 0 {
             let lastval = if matches!(comps[len - 1], RComp::Str(_)) { "y" } else { "6" };
